@@ -48,7 +48,8 @@ type slDesc struct {
 
 type slCase struct {
 	Fam   string          `json:"fam"`
-	D     slDesc          `json:"d"`
+	DS    []slDesc        `json:"ds"`
+	D     slDesc          `json:"-"` // DS[0]
 	Style json.RawMessage `json:"style"`
 	Toks  []string        `json:"toks"`
 	Mut   struct {
@@ -57,9 +58,9 @@ type slCase struct {
 		Role string `json:"role"`
 	} `json:"mut"`
 	Exp struct {
-		OK  bool   `json:"ok"`
-		Why string `json:"why"`
-		V   slDesc `json:"v"`
+		OK  bool     `json:"ok"`
+		Why string   `json:"why"`
+		V   []slDesc `json:"v"`
 	} `json:"exp"`
 }
 
@@ -189,7 +190,7 @@ func c16Diff(d *corazawaf.VerifRuleDump, want *slDesc) string {
 	}
 	// actions
 	var tags []string
-	id, phase, msg, logdata, rev, ver := 0, 2, "", "", "", ""
+	id, phase, msg, logdata, rev, ver, status := 0, 2, "", "", "", "", ""
 	flags, written := map[string]bool{}, map[string]bool{}
 	for _, a := range want.Acts {
 		v := strings.Join(a.Val, "")
@@ -208,7 +209,9 @@ func c16Diff(d *corazawaf.VerifRuleDump, want *slDesc) string {
 			rev = v
 		case "ver":
 			ver = v
-		case "severity", "t", "status":
+		case "status":
+			status = v
+		case "severity", "t":
 		default:
 			flags[a.Name] = true
 		}
@@ -244,8 +247,34 @@ func c16Diff(d *corazawaf.VerifRuleDump, want *slDesc) string {
 			return fmt.Sprintf("action %s was compiled but never written (written: %v)", a, want.Acts)
 		}
 	}
-	if flags["deny"] && d.Status != 403 {
-		return fmt.Sprintf("status %d compiled, 403 written", d.Status)
+	if status != "" && strconv.Itoa(d.Status) != status {
+		return fmt.Sprintf("status %d compiled, %s written", d.Status, status)
+	}
+	return ""
+}
+
+// c16DiffAll compares a compiled rule and its chain with a sequence of descriptions (starter, links).
+func c16DiffAll(d *corazawaf.VerifRuleDump, want []slDesc) string {
+	cur := d
+	for i := range want {
+		if cur == nil {
+			return fmt.Sprintf("%d rule(s) written, the compiled chain has only %d", len(want), i)
+		}
+		w := want[i]
+		if i > 0 {
+			// a link has no id / phase of its own
+			w.Acts = append([]slAct{{Name: "id", HasVal: true, Val: []string{"0"}}, {Name: "phase", HasVal: true, Val: []string{strconv.Itoa(cur.Phase)}}}, w.Acts...)
+		}
+		if diff := c16Diff(cur, &w); diff != "" {
+			if i > 0 {
+				return fmt.Sprintf("chain link %d: %s", i, diff)
+			}
+			return diff
+		}
+		cur = cur.Chain
+	}
+	if cur != nil {
+		return fmt.Sprintf("%d rule(s) written, the compiled chain is longer", len(want))
 	}
 	return ""
 }
@@ -266,7 +295,7 @@ func C16(run *vf.Run) {
 	var cases []slCase
 	var mu sync.Mutex
 	var tlcErr error
-	fams := []string{"targets", "op", "acts"}
+	fams := []string{"targets", "op", "acts", "chain"}
 	slices := 2
 	allStyles := vf.Pick(run, "FALSE", "TRUE")
 	var wg sync.WaitGroup
@@ -279,7 +308,8 @@ func C16(run *vf.Run) {
 					Workers: 3, Timeout: vf.Pick(run, 10*time.Minute, 90*time.Minute),
 					OnOut: func(raw json.RawMessage) {
 						var c slCase
-						if err := json.Unmarshal(raw, &c); err == nil {
+						if err := json.Unmarshal(raw, &c); err == nil && len(c.DS) > 0 {
+							c.D = c.DS[0]
 							mu.Lock()
 							cases = append(cases, c)
 							mu.Unlock()
@@ -320,7 +350,7 @@ func C16(run *vf.Run) {
 		}
 		reported[sig] = true
 		run.Violate(vf.Violation{Signature: sig, What: fmt.Sprintf("%s || text: %s", what, strconv.Quote(text)),
-			Replay: map[string]any{"family": "seclang", "text": text, "description": c.D, "mutation": c.Mut, "reference_reading": c.Exp}})
+			Replay: map[string]any{"family": "seclang", "text": text, "description": c.DS, "mutation": c.Mut, "reference_reading": c.Exp}})
 	}
 	// feature of a description for signatures
 	feat := func(c *slCase) string {
@@ -396,25 +426,79 @@ func C16(run *vf.Run) {
 			report("seclang:panic|"+feat(c)+"+"+mutSig, "the parser panicked: "+strings.SplitN(p, "\n", 2)[0], c, text)
 			continue
 		}
-		accepted := errText == "" && len(dumps) == 1
-		if errText == "" && len(dumps) != 1 {
-			report("seclang:rule-count|"+feat(c)+"+"+mutSig, fmt.Sprintf("the text holds one rule, %d compiled without an error", len(dumps)), c, text)
-			continue
+		accepted := errText == ""
+		// diffRules compares everything compiled with a sequence of descriptions grouped into chains
+		diffRules := func(want []slDesc) string {
+			var chains [][]slDesc
+			open := false
+			for _, w := range want {
+				if open {
+					chains[len(chains)-1] = append(chains[len(chains)-1], w)
+				} else {
+					chains = append(chains, []slDesc{w})
+				}
+				open = false
+				for _, a := range w.Acts {
+					if a.Name == "chain" {
+						open = true
+					}
+				}
+			}
+			if len(chains) != len(dumps) {
+				return fmt.Sprintf("the text holds %d rule(s) / chain(s), %d were compiled", len(chains), len(dumps))
+			}
+			for k := range chains {
+				if diff := c16DiffAll(dumps[k], chains[k]); diff != "" {
+					return diff
+				}
+			}
+			return ""
 		}
 		if !mutated {
 			if !accepted {
 				report("seclang:valid-text-rejected|"+feat(c), "a rendering the reference reader reads back as its description is rejected: "+errText, c, text)
 				continue
 			}
-			if diff := c16Diff(dumps[0], &c.D); diff != "" {
+			if diff := diffRules(c.DS); diff != "" {
 				report("seclang:compiled-differs|"+feat(c), "the compiled rule is not the description the text was rendered from: "+diff, c, text)
 				continue
 			}
-			dk, _ := json.Marshal(c.D)
+			dk, _ := json.Marshal(c.DS)
 			if groups[string(dk)] == nil {
 				groups[string(dk)] = map[string]string{}
 			}
 			groups[string(dk)][c16DumpKey(dumps[0])] = text
+			// a chain split across files: the starter in the main text, the links in an included file
+			if c.Fam == "chain" {
+				cut := -1
+				lineStart, seen := true, 0
+				for k, t := range c.Toks {
+					if t == "\n" {
+						lineStart = true
+						continue
+					}
+					if lineStart && t != " " {
+						if strings.EqualFold(t, "secrule") {
+							seen++
+							if seen == 2 {
+								cut = k
+								break
+							}
+						}
+						lineStart = false
+					}
+				}
+				if cut > 0 {
+					inc := filepath.Join(scratch, fmt.Sprintf("links%d.conf", i))
+					if os.WriteFile(inc, []byte(strings.Join(c.Toks[cut:], "")+"\n"), 0o644) == nil {
+						d2, e2, p2 := c16Compile(strings.Join(c.Toks[:cut], "")+"\nInclude "+inc+"\n", "")
+						if p2 != "" || e2 != "" || len(d2) != 1 || c16DumpKey(d2[0]) != c16DumpKey(dumps[0]) {
+							report("seclang:include-differs|chain-split", fmt.Sprintf("a chain whose links sit in an included file compiles differently (error %q panic %q)", e2, p2), c, text)
+						}
+						os.Remove(inc)
+					}
+				}
+			}
 			// the same text in an included file
 			if i%3 == 0 {
 				inc := filepath.Join(scratch, fmt.Sprintf("inc%d.conf", i))
@@ -432,12 +516,16 @@ func C16(run *vf.Run) {
 		if !accepted {
 			continue // rejecting is always allowed
 		}
+		first := &corazawaf.VerifRuleDump{}
+		if len(dumps) > 0 {
+			first = dumps[0]
+		}
 		if !c.Exp.OK {
 			report("seclang:near-miss-accepted|"+c.Exp.Why+"+"+mutSig, fmt.Sprintf("near-miss text (%s of the delimiter in role %s) cannot be read as a rule ("+c.Exp.Why+"), yet the parser compiled it without an error into: targets %+v operator %q %q msg %q tags %q actions %v",
-				c.Mut.Kind, c.Mut.Role, dumps[0].Targets, dumps[0].OperatorName, dumps[0].OperatorData, dumps[0].Msg, dumps[0].Tags, dumps[0].Actions), c, text)
+				c.Mut.Kind, c.Mut.Role, first.Targets, first.OperatorName, first.OperatorData, first.Msg, first.Tags, first.Actions), c, text)
 			continue
 		}
-		if diff := c16Diff(dumps[0], &c.Exp.V); diff != "" {
+		if diff := diffRules(c.Exp.V); diff != "" {
 			report("seclang:near-miss-compiled-differs|"+mutSig, fmt.Sprintf("near-miss text (%s of the delimiter in role %s) compiles into something other than what it says: %s", c.Mut.Kind, c.Mut.Role, diff), c, text)
 		}
 	}
@@ -448,9 +536,9 @@ func C16(run *vf.Run) {
 				texts = append(texts, strconv.Quote(t))
 			}
 			sort.Strings(texts)
-			var d slDesc
-			_ = json.Unmarshal([]byte(dk), &d)
-			c := &slCase{D: d}
+			var ds []slDesc
+			_ = json.Unmarshal([]byte(dk), &ds)
+			c := &slCase{DS: ds, D: ds[0]}
 			c.Mut.Kind = "none"
 			report("seclang:renderings-differ|"+fmt.Sprint(len(g)), "equivalent renderings of one description compile to different rules: "+strings.Join(texts, " vs "), c, texts[0])
 		}
